@@ -22,7 +22,7 @@ type c11T2 struct{ G string }
 type C11Emb struct{ Promoted int }
 type c11T3 struct {
 	*C11Emb // fields promoted through an embedded pointer take resolveIndex's reflect path
-	H int
+	H       int
 }
 
 var c11Ops = []string{
@@ -292,7 +292,11 @@ func H_C11_execAlone() {
 	wantA, wantB := solo(a), solo(b)
 	// optionally a sequential warm-up that exercises pools on their rarely taken paths
 	// (range-else over empty collections, a failing execution) before the concurrent part
-	if w := ndChoice("warmup", 3); w > 0 {
+	w := ndChoice("warmup", 3)
+	warmup := func() {
+		if w == 0 {
+			return
+		}
 		wsrc := `{{ range e }}x{{ else }}y{{ end }}{{ range k, v := em }}x{{ else }}y{{ end }}`
 		if w == 2 {
 			wsrc = `{{ try }}{{ range s }}{{ nope }}{{ end }}{{ end }}{{ range s }}{{ nope }}{{ end }}`
@@ -306,31 +310,41 @@ func H_C11_execAlone() {
 			tw.Execute(&sink, wv, nil)
 		}
 	}
-	reps := 1
+	// the engine explores the schedules of one round; natively the round (warm-up, then the
+	// two executions side by side, many times) is repeated, under the race detector - whose
+	// sync.Pool drops objects at random, so that one round alone often shows nothing
+	rounds, reps := 1, 1
 	if !vfSymbolic() {
-		reps = 200
+		rounds, reps = 40, 60
 	}
 	vfRace(vfTier())
 	var gotA, gotB string
-	var wg sync.WaitGroup
-	wg.Add(2)
-	go func() {
-		defer wg.Done()
-		for k := 0; k < reps; k++ {
-			gotA = c11Exec(ta, a)
-		}
-	}()
-	go func() {
-		defer wg.Done()
-		for k := 0; k < reps; k++ {
-			gotB = c11Exec(tb, b)
-		}
-	}()
-	wg.Wait()
+	for round := 0; round < rounds; round++ {
+		warmup()
+		var wg sync.WaitGroup
+		wg.Add(2)
+		go func() {
+			defer wg.Done()
+			for k := 0; k < reps; k++ {
+				// (natively every repetition is compared: the first one that differs is kept)
+				if g := c11Exec(ta, a); (round == 0 && k == 0) || gotA == wantA {
+					gotA = g
+				}
+			}
+		}()
+		go func() {
+			defer wg.Done()
+			for k := 0; k < reps; k++ {
+				if g := c11Exec(tb, b); (round == 0 && k == 0) || gotB == wantB {
+					gotB = g
+				}
+			}
+		}()
+		wg.Wait()
+	}
 	vfReach("done")
 	vfAssert(gotA == wantA && gotB == wantB, "each concurrent Execute produces exactly what it produces when run alone")
 }
-
 
 // H_C11_customDelims: two goroutines parse (GetTemplate / Parse) and execute templates of a
 // Set configured with custom action and comment delimiters: no unordered conflicting
